@@ -420,6 +420,18 @@ def char_call_roles(ctx, tabs):
                 ctx.item("C10/T1/%s/%s.std::string(ptr,n):trimmed" % (lang, rname), ok,
                          "std::string {cxx_var}({c_var}, %s): the length must be the trimmed length (len_trim in buf_args "
                          "or computed by ShroudLenTrim over the capacity)" % m.group(2))
+            # a std::string built from a blank-padded Fortran element (a pointer walking the buffer): its length is the
+            # trimmed length of THAT element over the element capacity, so an all-blank element becomes ""
+            for args in calls_of([l.replace("\t", "") for l in lines], "std::string"):
+                if len(args) == 2 and (args[0] in local_ptrs or args[0] == "{c_var}") and "in" in rname.split("_") + \
+                        (["in"] if "inout" in rname.split("_") else []):
+                    inner = calls_of([args[1]], "ShroudLenTrim")
+                    ok = trim_ok(args[1].strip()) or (args[1].strip().startswith("ShroudLenTrim") and len(inner) == 1 and
+                                                      len(inner[0]) == 2 and inner[0][0] == args[0] and cap_ok(inner[0][1]))
+                    ctx.item("C10/T1/%s/%s.std::string(elem,n):trimmed" % (lang, rname), ok,
+                             "std::string(%s, %s): text received from Fortran must be built with its trimmed length "
+                             "(ShroudLenTrim over the element capacity); later trimming with find_last_not_of leaves an "
+                             "all-blank element blank" % (args[0], args[1]), sample={"row": rname, "call": args})
             for args in calls_of(lines, "memset"):
                 if args and args[0] == "{c_var}":
                     ok = len(args) == 3 and args[1] == "' '" and cap_ok(args[2])
